@@ -26,6 +26,10 @@ def check(run):
                       dict(reply=p["reply"], label=p["label"], panics=p["panics"], body_hex=p.get("body_hex"),
                            how="work/bin/harness gen C15 -seed %d -tier %s -out <dir>; reply index %d" % (run.seed, run.tier, p["reply"])))
     run.obligation("no panic in client.Execute, Get, Blocks, NewReceipt / ReceiptReader.Read or any receipt accessor", not stats.get("panic_list"))
+    for d in stats.get("direct_violations") or []:
+        run.violation("http:" + d["what"][:40], "reply %d (%s): %s" % (d["reply"], d["label"], d["what"]), d)
+    run.obligation("oracle: through a real HTTP server and transport/http's channel (Content-Length, chunked, close-delimited and short bodies), "
+                   "every non-200 status gives an error", not stats.get("direct_violations"))
     res = vlib.run_case_files(sorted(glob.glob(os.path.join(wd, "cases_*.v"))))
     ok = True
     for f, (r, o2) in res.items():
@@ -48,10 +52,12 @@ def check(run):
                         "subset of receipt and invocation blocks missing; receipts with boundary fields (signature empty / code only, issuer absent / not a DID / "
                         "empty, ran / proof / fork / join links dangling, result with neither or both of ok and error, null metadata), with embedded and "
                         "bare ran; report value that is not a receipt; root that is not a message / missing / no roots / two roots; statuses 100..999; "
-                        "1500 (60 000 thorough) raw mutations of a valid reply body. For each: client.Execute, Get for 4 links, block iteration, NewReceipt and "
+                        "1500 (60 000 thorough) raw mutations of a valid reply body; every structured reply, 60 raw ones and error statuses "
+                        "201..504 with empty / HTML / CAR / long bodies again through a real HTTP server and transport/http's channel with Content-Length, chunked "
+                        "(length unknown), HTTP/1.0 close-delimited and shorter-than-declared bodies. For each: client.Execute, Get for 4 links, block iteration, NewReceipt and "
                         "ReceiptReader.Read of every reported receipt and all accessors (Out, Ran, Fx, Meta, Issuer, Proofs, Signature, Root, Blocks) under recover; "
                         "error-vs-response and Get results of the structured replies compared with coq/Client.v; distinct = distinct (label, class, Get results, read/accessor outcomes)",
-                   samples=stats["samples"][:6], classes=stats["classes"], structured_replies=stats["structured_replies"])
+                   samples=stats["samples"][:6], classes=stats["classes"], http_framings=stats.get("http_framings"), structured_replies=stats["structured_replies"])
     run.assumptions += ["model starts at decoded blocks (which roots/blocks/report the reply carries is construction knowledge of the harness)",
                         "panics are observed with recover in the calling goroutine (the client code path starts no goroutine that could panic elsewhere)"]
 
